@@ -187,7 +187,7 @@ class C10(core.Prop):
     theorems = ['TddaVerif.Props.C10.' + t for t in ['shouldRegenerate_history', 'write_only_named', 'regen_from_cmdline',
         'normal_mode_readonly_string', 'normal_mode_readonly_textfile', 'normal_mode_readonly_binary', 'splitlines_universal',
         'universal_idem', 'regenerate_then_pass_string', 'regenerate_then_pass_textfile', 'regenerate_then_pass_binary']]
-    quick_n = 250
+    quick_n = 750
     thorough_n = 6000
     rule = ('cases: histories of 1..10 operations on one ReferenceTest subclass: set_regeneration(kind in '
             '{None, table, graph, csv}, bool) and string / text-file / text-files / binary-file / DataFrame(parquet) '
